@@ -351,6 +351,9 @@ def brief_event(e):
             "lines": [" ".join("%s%s" % (w["l"], w["v"]) for w in ln["ws"]) for ln in e["lines"]]}
 
 
+NOTES = []
+
+
 def validate_traces(traces, shards=12):
     """Returns (failures, done, results). failures: (trace_index, step, clause, sig)."""
     wd = workdir()
@@ -366,10 +369,13 @@ def validate_traces(traces, shards=12):
     cfg = "SPECIFICATION Spec\n"
     results = tlc.validate_sharded("BuilderTrace", cfg, files)
     failures, done = [], {}
+    NOTES.clear()
     for r, idx in zip(results, index):
         if r.errors or r.violated or r.rc not in (0,):
             raise MachineryError("TLC failed on trace batch: rc=%s %s\n%s" % (r.rc, r.errors[:3], r.stdout[-2000:]))
         for t in r.tuples:
+            if t and t[0] == "N":
+                NOTES.append((idx[t[1] - 1], t[2]))
             if t and t[0] == "F":
                 failures.append((idx[t[1] - 1], t[2], t[3], t[4]))
             elif t and t[0] == "D":
@@ -480,6 +486,9 @@ def run(pid, tier, replay_path=None):
     for sig, fs in known_hit.items():
         say("KNOWN-FINDING: property=%s %s (%s) -- %d occurrences, e.g. trace %d step %d" %
             (pid, kf_sigs[sig]["id"], kf_sigs[sig]["description"], len(fs), fs[0][0], fs[0][1]))
+    gd = [n for n in NOTES if n[0] < nreal and n[1] == "gcoder"]
+    if gd and pid == "C01":
+        say("NOTE cross-oracle: the bundled gcoder analyser ends elsewhere than Machine.tla on %d of %d traces (first: trace %d)" % (len(gd), nreal, gd[0][0]))
     rc = EXIT_OK
     vpaths = []
     seen = set()
@@ -506,6 +515,7 @@ def run(pid, tier, replay_path=None):
         "negative_controls_detected": len(controls) - len(missed),
         "clause_antecedent_counts": counts,
         "known_findings_hit": {k: len(v) for k, v in known_hit.items()},
+        "cross_oracle_gcoder_disagreements": len([n for n in NOTES if n[0] < nreal and n[1] == "gcoder"]),
         "samples": [{"meta": t["meta"], "calls": [brief_event(e) for e in t["ev"][:12]]} for t in traces[:3]],
     })
     write_evidence(pid, tier, cov,
